@@ -335,6 +335,12 @@ class _DeviceManagementConnection(ABC):
                 # reusing it as the answer deadline is merely a sensible choice.
                 async with asyncio.timeout(DEVICE_CONFIGURATION_REQUEST_TIMEOUT):
                     while True:
+                        if self.communication_channel is None and not pending.done():
+                            # closed while the request was still waiting for its
+                            # acknowledgement - no answer can arrive anymore
+                            raise CommunicationError(
+                                "Device management connection was closed."
+                            )
                         answer = await pending
                         if matches is None or matches(answer):
                             return answer
